@@ -222,4 +222,154 @@ example (k : StreamKind) (isLazy : Bool) :
   obtain ⟨ret, a', e, hb⟩ := hs exImg2_hashSecOk
   exact ⟨o1, t, ret, a', h, e, hb⟩
 
+/-! ### 2. module information (C14: `.modinfo`) -/
+
+instance (a : Bytes × Bytes) : Decidable (Spec.AttrOk a) := by unfold Spec.AttrOk; infer_instance
+
+/-- **modinfo_reports_spec** : for a file-occupying section `i` whose file bytes are the concatenation of
+    `field=value\0` records of the attributes `as` (fields free of `=` / NUL, values free of NUL: `Spec.AttrOk`,
+    decidable; `hbytes` is decidable for a given `as`), `modinfo_section_accessor(sections[i])` on the loaded object
+    holds exactly `as`, in order — which is what the reference reader `Spec.parseModinfo` makes of the section's file
+    bytes —, `get_attribute(k, field, value)` is the `k`-th of them for EVERY 32-bit `k` (false beyond the end) and
+    `get_attribute(field, value)` the value of the first attribute with that field name (`Spec.lookupFirst`) for
+    EVERY name. -/
+theorem modinfo_reports_spec (img : Bytes) (hwf : WellFormedImage img) (o : Obj) (hL : LoadedFrom img o) (i : Nat)
+    (hi : i < eh img "e_shnum") (hocc : occupiesFile (sh img i "sh_type") = true) (as : List Modinfo.Attr)
+    (hok : ∀ a ∈ as, Spec.AttrOk a) (hbytes : secFileBytes img i = Spec.encodeModinfo as) (k : BitVec 32)
+    (field : Bytes) :
+    ∃ o1, LoadedFrom img o1 ∧ o1.segs = o.segs ∧ as = Spec.parseModinfo (secFileBytes img i) ∧
+      inspect o (.modinfo i) = .ok (o1, .attrs as) ∧
+      inspect o (.modinfoGet i k) = .ok (o1, .attr as[k.toNat]?) ∧
+      inspect o (.modinfoByName i field) = .ok (o1, .value (Spec.lookupFirst as field)) := by
+  obtain ⟨o1, b1, h1, hL1, hR1, _, _, hseg, _⟩ := secResident_ready img hwf o hL i hi
+  obtain ⟨hinv, hcont⟩ := hR1.inv hocc
+  have hp := C14.modinfo_parse b1 hinv as (by rw [hcont, hbytes]) hok
+  have hlen : as.length < 18446744073709551616 := by
+    have h1 := C14.encodeModinfo_length_ge as
+    have h2 := hR1.fileBytes_length hwf hi hocc
+    have h3 := (wf_sec img hwf i hi false).2.2.2 hocc
+    have h63 := (wf_sec img hwf i hi false).1
+    rw [← hbytes, h2] at h1
+    omega
+  refine ⟨o1, hL1, hseg, by rw [hbytes, C14.spec_parse_encode as hok], ?_, ?_, ?_⟩
+  · simp only [inspect, h1, hp]; rfl
+  · simp only [inspect, h1, hp, C14.getByIndex_eq as hlen]; rfl
+  · simp only [inspect, h1, hp, C14.getByName_eq_lookupFirst]; rfl
+
+/-- the two attributes of the example image: license=GPL, author=me -/
+def exAttrs : List Modinfo.Attr :=
+  [([0x6c, 0x69, 0x63, 0x65, 0x6e, 0x73, 0x65], [0x47, 0x50, 0x4c]), ([0x61, 0x75, 0x74, 0x68, 0x6f, 0x72], [0x6d, 0x65])]
+
+example (k : StreamKind) (isLazy : Bool) :
+    ∃ r : LoadRes, load {} { data := exImg2, kind := k } isLazy = .ok r ∧
+      ∀ (idx : BitVec 32) (f : Bytes), ∃ o1, inspect r.obj (.modinfoGet 5 idx) = .ok (o1, .attr exAttrs[idx.toNat]?) ∧
+        inspect r.obj (.modinfoByName 5 f) = .ok (o1, .value (Spec.lookupFirst exAttrs f)) := by
+  obtain ⟨r, h1, _, h3⟩ := of_load exImg2 {} k isLazy rfl exImg2_wf
+  refine ⟨r, h1, fun idx f => ?_⟩
+  obtain ⟨o1, _, _, _, _, g1, g2⟩ := modinfo_reports_spec exImg2 exImg2_wf r.obj h3 5 (by decide +kernel)
+    (by decide +kernel) exAttrs (by decide) (by decide +kernel) idx f
+  exact ⟨o1, g1, g2⟩
+example : Spec.parseModinfo (secFileBytes exImg2 5) = exAttrs ∧
+    Spec.lookupFirst exAttrs [0x61, 0x75, 0x74, 0x68, 0x6f, 0x72] = some [0x6d, 0x65] := by decide +kernel
+
+/-! ### 3. version requirements and definitions (C14: `.gnu.version_r`, `.gnu.version_d`)
+
+The accessors' entry count `num` (DT_VERNEEDNUM / DT_VERDEFNUM, read from `.dynamic` by the constructor —
+`dynamic_reports_spec` says what that read-out is) is a parameter: the statements hold for EVERY count.  The linked
+string table is `sections[sh_link]` (the full 32-bit `get_link()`, no `Elf_Half` conversion in these accessors). -/
+
+/-- the two sections a version accessor reads, made resident -/
+theorem verSetup_ready (img : Bytes) (hwf : WellFormedImage img) (o : Obj) (hL : LoadedFrom img o) (i : Nat)
+    (hi : i < eh img "e_shnum") (hl : sh img i "sh_link" < eh img "e_shnum") :
+    ∃ o1 b1 o2 s, secResident o i = some (o1, b1) ∧ secResident o1 b1.link.toNat = some (o2, s) ∧
+      LoadedFrom img o2 ∧ o2.segs = o.segs ∧ SecReady img i b1 ∧ SecReady img (sh img i "sh_link") s := by
+  obtain ⟨o1, b1, h1, hL1, hR1, _, _, hs1, _⟩ := secResident_ready img hwf o hL i hi
+  obtain ⟨o2, s, h2, hL2, hR2, _, _, hs2, _⟩ := secResident_ready img hwf o1 hL1 _ hl
+  exact ⟨o1, b1, o2, s, h1, by rw [hR1.link]; exact h2, hL2, hs2.trans hs1, hR1, hR2⟩
+
+/-- **verneed_reports_spec** : for a file-occupying section `i` whose `sh_link` names a file-occupying section of
+    the file, `versym_r_section_accessor(elf, sections[i]).get_entry(no, version, file_name, hash, flags, other,
+    dep_name)` on the loaded object (for every cached count `num`): for `no ≥ num` false; for `no < num`, whenever
+    the GNU-ABI reference reader `Spec.needView` succeeds on the FILE BYTES of the section and of the linked string
+    table (follow `vn_next` `no` times from the section start, decode the `Verneed` record and its first `Vernaux`
+    record in the file's byte order, resolve both names in the string table), exactly that entry. -/
+theorem verneed_reports_spec (img : Bytes) (hwf : WellFormedImage img) (o : Obj) (hL : LoadedFrom img o) (i : Nat)
+    (hi : i < eh img "e_shnum") (hocc : occupiesFile (sh img i "sh_type") = true)
+    (hl : sh img i "sh_link" < eh img "e_shnum")
+    (hlocc : occupiesFile (sh img (sh img i "sh_link") "sh_type") = true) (num no : BitVec 32) :
+    ∃ o1 b1 o2 s, secResident o i = some (o1, b1) ∧ secResident o1 b1.link.toNat = some (o2, s) ∧
+      LoadedFrom img o2 ∧ o2.segs = o.segs ∧
+      (num.toNat ≤ no.toNat → Verneed.getEntry (encOf img) b1 (some s) num no = .ok none) ∧
+      (∀ v, no.toNat < num.toNat →
+        Spec.needView (encOf img) (secFileBytes img i) (secFileBytes img (sh img i "sh_link")) no.toNat = some v →
+        Verneed.getEntry (encOf img) b1 (some s) num no =
+          .ok (some { version := BitVec.ofNat 16 v.version, file := v.file, hash := BitVec.ofNat 32 v.hash,
+                      flags := BitVec.ofNat 16 v.flags, other := BitVec.ofNat 16 v.other, name := v.name })) := by
+  obtain ⟨o1, b1, o2, s, h1, h2, hL2, hseg, hR1, hR2⟩ := verSetup_ready img hwf o hL i hi hl
+  obtain ⟨hI, hc⟩ := hR1.inv hocc
+  obtain ⟨hS, hcs⟩ := hR2.inv hlocc
+  refine ⟨o1, b1, o2, s, h1, h2, hL2, hseg, C14.verneed_get_absent _ _ _ _ _, ?_⟩
+  intro v hno hv
+  exact C14.verneed_get_eq_spec (encOf img) b1 s hI hS num no hno v (by rw [hc, hcs]; exact hv)
+
+/-- **verdef_reports_spec** : the same for `versym_d_section_accessor(elf, sections[i]).get_entry(no, flags,
+    version_index, hash, dep_name)` and the reference reader `Spec.defView` (`vd_next` chain, first `Verdaux`). -/
+theorem verdef_reports_spec (img : Bytes) (hwf : WellFormedImage img) (o : Obj) (hL : LoadedFrom img o) (i : Nat)
+    (hi : i < eh img "e_shnum") (hocc : occupiesFile (sh img i "sh_type") = true)
+    (hl : sh img i "sh_link" < eh img "e_shnum")
+    (hlocc : occupiesFile (sh img (sh img i "sh_link") "sh_type") = true) (num no : BitVec 32) :
+    ∃ o1 b1 o2 s, secResident o i = some (o1, b1) ∧ secResident o1 b1.link.toNat = some (o2, s) ∧
+      LoadedFrom img o2 ∧ o2.segs = o.segs ∧
+      (num.toNat ≤ no.toNat → Verdef.getEntry (encOf img) b1 (some s) num no = .ok none) ∧
+      (∀ v, no.toNat < num.toNat →
+        Spec.defView (encOf img) (secFileBytes img i) (secFileBytes img (sh img i "sh_link")) no.toNat = some v →
+        Verdef.getEntry (encOf img) b1 (some s) num no =
+          .ok (some { flags := BitVec.ofNat 16 v.flags, ndx := BitVec.ofNat 16 v.ndx,
+                      hash := BitVec.ofNat 32 v.hash, name := v.name })) := by
+  obtain ⟨o1, b1, o2, s, h1, h2, hL2, hseg, hR1, hR2⟩ := verSetup_ready img hwf o hL i hi hl
+  obtain ⟨hI, hc⟩ := hR1.inv hocc
+  obtain ⟨hS, hcs⟩ := hR2.inv hlocc
+  refine ⟨o1, b1, o2, s, h1, h2, hL2, hseg, C14.verdef_get_absent _ _ _ _ _, ?_⟩
+  intro v hno hv
+  exact C14.verdef_get_eq_spec (encOf img) b1 s hI hS num no hno v (by rw [hc, hcs]; exact hv)
+
+/-- the example image: one requirement (libc.so.6, GLIBC_2.0, version index 2) and one definition (ver1, index 1) -/
+example : Spec.needView (encOf exImg2) (secFileBytes exImg2 6) (secFileBytes exImg2 1) 0 =
+      some ⟨1, [0x6c, 0x69, 0x62, 0x63, 0x2e, 0x73, 0x6f, 0x2e, 0x36], 0x0d696910, 0, 2,
+        [0x47, 0x4c, 0x49, 0x42, 0x43, 0x5f, 0x32, 0x2e, 0x30]⟩ ∧
+    Spec.defView (encOf exImg2) (secFileBytes exImg2 7) (secFileBytes exImg2 1) 0 =
+      some ⟨1, 1, 0x0a7b5c31, [0x76, 0x65, 0x72, 0x31]⟩ := by decide +kernel
+example (k : StreamKind) (isLazy : Bool) :
+    ∃ r : LoadRes, load {} { data := exImg2, kind := k } isLazy = .ok r ∧
+      ∃ o1 b1 o2 s, secResident r.obj 6 = some (o1, b1) ∧ secResident o1 b1.link.toNat = some (o2, s) ∧
+        Verneed.getEntry (encOf exImg2) b1 (some s) 1 0 =
+          .ok (some ⟨1, [0x6c, 0x69, 0x62, 0x63, 0x2e, 0x73, 0x6f, 0x2e, 0x36], 0x0d696910, 0, 2,
+            [0x47, 0x4c, 0x49, 0x42, 0x43, 0x5f, 0x32, 0x2e, 0x30]⟩) ∧
+        ∀ no : BitVec 32, 1 ≤ no.toNat → Verneed.getEntry (encOf exImg2) b1 (some s) 1 no = .ok none := by
+  obtain ⟨r, h1, _, h3⟩ := of_load exImg2 {} k isLazy rfl exImg2_wf
+  refine ⟨r, h1, ?_⟩
+  have hview : Spec.needView (encOf exImg2) (secFileBytes exImg2 6) (secFileBytes exImg2 (sh exImg2 6 "sh_link")) 0 =
+      some ⟨1, [0x6c, 0x69, 0x62, 0x63, 0x2e, 0x73, 0x6f, 0x2e, 0x36], 0x0d696910, 0, 2,
+        [0x47, 0x4c, 0x49, 0x42, 0x43, 0x5f, 0x32, 0x2e, 0x30]⟩ := by decide +kernel
+  obtain ⟨o1, b1, o2, s, g1, g2, _, _, _, g4⟩ := verneed_reports_spec exImg2 exImg2_wf r.obj h3 6 (by decide +kernel)
+    (by decide +kernel) (by decide +kernel) (by decide +kernel) 1 0
+  refine ⟨o1, b1, o2, s, g1, g2, g4 _ (by decide) hview, ?_⟩
+  intro no hno
+  obtain ⟨o1', b1', o2', s', g1', g2', _, _, g3', _⟩ := verneed_reports_spec exImg2 exImg2_wf r.obj h3 6
+    (by decide +kernel) (by decide +kernel) (by decide +kernel) (by decide +kernel) 1 no
+  rw [g1] at g1'; cases g1'
+  rw [g2] at g2'; cases g2'
+  exact g3' hno
+example (k : StreamKind) (isLazy : Bool) :
+    ∃ r : LoadRes, load {} { data := exImg2, kind := k } isLazy = .ok r ∧
+      ∃ o1 b1 o2 s, secResident r.obj 7 = some (o1, b1) ∧ secResident o1 b1.link.toNat = some (o2, s) ∧
+        Verdef.getEntry (encOf exImg2) b1 (some s) 1 0 = .ok (some ⟨1, 1, 0x0a7b5c31, [0x76, 0x65, 0x72, 0x31]⟩) := by
+  obtain ⟨r, h1, _, h3⟩ := of_load exImg2 {} k isLazy rfl exImg2_wf
+  refine ⟨r, h1, ?_⟩
+  have hview : Spec.defView (encOf exImg2) (secFileBytes exImg2 7) (secFileBytes exImg2 (sh exImg2 7 "sh_link")) 0 =
+      some ⟨1, 1, 0x0a7b5c31, [0x76, 0x65, 0x72, 0x31]⟩ := by decide +kernel
+  obtain ⟨o1, b1, o2, s, g1, g2, _, _, _, g4⟩ := verdef_reports_spec exImg2 exImg2_wf r.obj h3 7 (by decide +kernel)
+    (by decide +kernel) (by decide +kernel) (by decide +kernel) 1 0
+  exact ⟨o1, b1, o2, s, g1, g2, g4 _ (by decide) hview⟩
+
 end ElfioVerif.ComposeTables
